@@ -84,7 +84,10 @@ ParseClock(t) ==
 \* lenient spellings the platform's own %H:%M grammar may accept (one-digit fields,
 \* surrounding blanks): the statement does not say whether they are "valid" - left open
 LenientClock(t) ==
-  LET body == SelectSeq(t, LAMBDA c : ~IsSpace(c))
+  LET ink == {p \in 1..Len(t) : ~IsSpace(t[p])}
+      lo == IF ink = {} THEN 1 ELSE CHOOSE p \in ink : \A q \in ink : p <= q
+      hi == IF ink = {} THEN 0 ELSE CHOOSE p \in ink : \A q \in ink : p >= q
+      body == SubSeq(t, lo, hi)            \* blanks around the text are tolerated, blanks inside it are not ("1 2:00", "18 :00")
       cpos == {p \in 1..Len(body) : body[p] = Colon}
   IN /\ Cardinality(cpos) = 1
      /\ LET p == CHOOSE q \in cpos : TRUE IN
